@@ -307,6 +307,14 @@ def run_c14(sc):
     stats["repro-runs"] += 3
     # (b) isolation
     B = sc.get("B")
+    if B is not None and sc.get("share_domain"):
+        # "sharing the domain object" means B is built on A's very list: B's solo run is then on a box of the same value
+        # (keeps shrunk scenarios consistent: the minimiser may have changed A's box)
+        B = dict(B, domain=copy.deepcopy(A["domain"]))
+        for k in ("int_bounds", "aliased_rows"):
+            B.pop(k, None)
+            if A.get(k):
+                B[k] = A[k]
     if B is not None:
         # B's solo log is taken in a forked child of its own: by now A has run three times in this process, and state
         # that PyXAB keeps outside its instances (class attributes, module-level caches) would already be in B's baseline
@@ -460,6 +468,9 @@ def run_c16(sc):
     mag = max(max(abs(v) for iv in A["domain"] for v in iv), max(abs(v) for iv in B["domain"] for v in iv),
               max(abs(s) * (hi - lo) for lo, hi in A["domain"]))
     exact = sc.get("cls") == "exact"
+    # recomputed from the scenario (a shrunk scenario may have lost its user-supplied delta)
+    coord_sensitive = A["algo"] == "Zooming" or (A["algo"] == "DOO" and (A.get("params") or {}).get("delta") is None)
+    sc = dict(sc, coord_sensitive=coord_sensitive)
     if exact and any(x != 0 for x in b):
         # Bit budget of a translation (DESIGN 5.16), decided for the whole run from the depth of the trees it grew:
         # the box is dyadic (lo = k/4, width 2^j) and the partition splits at midpoints, so every cell bound at depth
